@@ -7,36 +7,69 @@ import random
 from mbt import tlc
 from mbt.bind import batchworker as BB
 
-INV = ['WellFormed', 'AtMostOnce', 'ExactlyOnceAtEnd', 'Timely', 'Immediate']
+INV = ['WellFormed', 'AtMostOnce', 'ExactlyOnceAtEnd', 'Timely', 'Immediate', 'WaitsOnlyWhenFull', 'LockHolderCanMove']
+ALL_KINDS = ('ok', 'exc', 'pre')
 
 
-def bw_cfg(nw, max_items, bs, ws, invariants=(), properties=(), spec='Spec', deadlock=True, max_gap=2):
+def bw_cfg(nw, max_items, bs, ws, invariants=(), properties=(), spec='Spec', deadlock=True, max_gap=2, *, kinds=ALL_KINDS,
+           extra=10, slow=((),), dur=0, wait_room=True, room_locked=True, **kw):
     return tlc.cfg_text(spec=spec, constants=dict(NW=nw, MaxItems=max_items, MaxT=24, Bs=set(bs), Ws=set(ws),
-                                                  MaxGap=max_gap),
-                        invariants=invariants, properties=properties, deadlock=deadlock)
+                                                  MaxGap=max_gap, Kinds=set(kinds), Extra=extra,
+                                                  SlowSets={frozenset(x) for x in slow}, SlowDur=dur,
+                                                  WaitRoomBeforeLock=wait_room, RoomCheckUnderLock=room_locked),
+                        invariants=invariants, properties=properties, deadlock=deadlock, **kw)
+
+
+def flood_cfg(nw, invariants=INV, ws=(0, 1), **kw):
+    """a buffer that holds batch_size + 1 elements, up to 5 requests at once, the first call slow or not: the collector has
+    to wait for room"""
+    return bw_cfg(nw, 5, {2}, set(ws), invariants, max_gap=0, kinds=('ok',), extra=1, slow=((), (1,)), dur=3, **kw)
 
 
 def c09(ck, replay=None):
     thorough = ck.tier == 'thorough'
     ck.l1('BatchWorker/1 worker', 'BatchWorker', bw_cfg(1, 4 if thorough else 3, {0, 1, 2, 3}, {0, 1, 2}, INV),
-          may_skip=('Next',), timeout=2400)
+          may_skip=('Next', 'CToWait'), timeout=2400)
     ck.l1('BatchWorker/2 competing workers', 'BatchWorker', bw_cfg(2, 3, {2, 3} if thorough else {2}, {0, 1}, INV),
-          may_skip=('Next', 'SGet'), timeout=2400)
+          may_skip=('Next', 'SGet', 'CToWait'), timeout=2400)
     ck.l1('BatchWorker/2 single-mode workers', 'BatchWorker', bw_cfg(2, 3, {0, 1}, {0}, INV),
-          may_skip=('Next', 'CLock', 'CGet', 'CProc', 'CMore', 'CDecide', 'GFirst', 'GMore', 'GClose', 'GSetFlag', 'GCall'))
+          may_skip=('Next', 'CTop', 'CToWait', 'GReturn', 'CLock', 'CGet', 'CProc', 'CMore', 'CDecide', 'GFirst', 'GMore', 'GClose', 'GSetFlag', 'GCall'))
     ck.l1('BatchWorker/liveness', 'BatchWorker', bw_cfg(1, 2, {0, 2}, {0, 1}, [], ['Finishes'], spec='FairSpec'),
           coverage=False)
+    # the batch buffer fills up: the collector waits for room (small buffer: batch_size + 1)
+    ck.l1('BatchWorker/full buffer, 1 worker', 'BatchWorker', flood_cfg(1), may_skip=('Next', 'SGet', 'CToWait'))
+    ck.l1('BatchWorker/full buffer, 2 competing workers', 'BatchWorker', flood_cfg(2), may_skip=('Next', 'SGet', 'CToWait'),
+          coverage=False, timeout=2400)
+    ck.l1('BatchWorker/full buffer, liveness', 'BatchWorker',
+          bw_cfg(1, 4, {2}, {0, 1}, [], ['Finishes'], spec='FairSpec', max_gap=0, kinds=('ok',), extra=1, slow=((), (1,)),
+                 dur=3), coverage=False)
+    ck.sensitive('`if buffer.full():` tested without the buffer\'s mutex, then `with _not_full: wait()`: a collector that waits '
+                 'next to a buffer with room - for ever once the buffer is empty (D26)', 'BatchWorker',
+                 flood_cfg(1, ['WaitsOnlyWhenFull'], room_locked=False), 'invariant', 'WaitsOnlyWhenFull')
+    ck.sensitive('the same design deadlocks: the end is never reached (D26)', 'BatchWorker',
+                 flood_cfg(1, [], ws=(0,), room_locked=False), 'deadlock', 'Deadlock')
+    ck.sensitive('a collector that takes the read lock without waiting for room blocks in buffer.put holding it', 'BatchWorker',
+                 flood_cfg(2, ['LockHolderCanMove'], ws=(0,), wait_room=False), 'invariant', 'LockHolderCanMove')
+    for goal in ('Trap_BufferFull', 'Trap_CollectorWaited'):
+        ck.trap(goal, 'BatchWorker', flood_cfg(1, [goal], ws=(0,)))
     # vacuity guards: the interesting corners must be reachable in the model
     for goal in ('Trap_PartialByTimeout', 'Trap_FullBatch'):
         ck.trap(goal, 'BatchWorker', bw_cfg(1, 3, {2}, {1}, [goal]))
     ck.trap('Trap_TwoWorkersCalled', 'BatchWorker', bw_cfg(2, 3, {2}, {0}, ['Trap_TwoWorkersCalled']))
     rnd = random.Random(ck.seed * 1000003 + 61)
     scs = BB.gen_scenarios(rnd, 1000 if thorough else 60, max_items=6 if thorough else 5)
+    floods = BB.flood_scenarios(rnd, 150 if thorough else 14)
     items, n = [], 0
-    for sc in scs:
+    for sc in scs + floods:
         for j in range(8 if thorough else 5):
             n += 1
             items.append({'id': n, 'sc': sc, 'seed': rnd.randrange(1 << 30), 'strategy': ['random', 'pct'][j % 2]})
+    # spec -> code: the schedule of the model's counterexample to the as-found room test (collector descheduled between
+    # "the buffer is full" and the wait), on the flood scenarios
+    for sc in floods:
+        for j in range(4 if thorough else 2):
+            n += 1
+            items.append({'id': n, 'sc': sc, 'seed': rnd.randrange(1 << 30), 'strategy': 'adversary'})
     out = ck.run_binder('batchworker', items, timeout=1200)
     ck.evaluations += int(out.get('n_exec', 0))
     for h in out.get('hangs', []):
@@ -49,7 +82,9 @@ def c09(ck, replay=None):
         groups[t['nw']].append(t)
     ck.validate_groups('Worker batching loops under detsched (exact virtual time)', 'BatchWorkerTrace',
                        [(tlc.cfg_text(spec='TraceSpec',
-                                      constants=dict(NW=nw, MaxItems=8, MaxT=400, Bs={0}, Ws={0}, MaxGap=3),
+                                      constants=dict(NW=nw, MaxItems=8, MaxT=400, Bs={0}, Ws={0}, MaxGap=3,
+                                                     Kinds=set(ALL_KINDS), Extra=10, SlowSets={frozenset()}, SlowDur=0,
+                                                     WaitRoomBeforeLock=True, RoomCheckUnderLock=True),
                                       constraint='Progress', postcondition='Report', deadlock=False), trs)
                         for nw, trs in sorted(groups.items())],
                        sig_of=lambda t, v: {'b': t['sc']['b'], 'nw': t['nw']})
